@@ -500,6 +500,112 @@ def b20(ctx, orc):
     return fails
 
 
+# -- C16 ---------------------------------------------------------------------------------------------------
+
+_KINDS = {(1, 0, 0, 1): 'equivalent', (0, 1, 1, 0): 'complement', (0, 1, 1, 1): 'incompatible',
+          (1, 0, 1, 1): 'implication', (1, 1, 0, 1): 'replication', (1, 1, 1, 0): 'subcontrary',
+          (1, 1, 1, 1): 'orthogonal'}
+_RANK = {'equivalent': 1, 'complement': 2, 'incompatible': 3, 'implication': 4, 'subcontrary': 6, 'orthogonal': 7,
+         'contradiction': -2, 'tautology': -1, 'contingency': 0}
+
+
+def b16(ctx, orc):
+    fails = []
+    cols = [[orc.table[i][j] for i in range(orc.n)] for j in range(orc.m)]
+    cont = [j for j in range(orc.m) if any(cols[j]) and not all(cols[j])]
+    want_bin = []
+    for a, b in itertools.combinations(cont, 2):
+        occ = tuple(int(any(x == va and y == vb for x, y in zip(cols[a], cols[b])))
+                    for va, vb in ((True, True), (True, False), (False, True), (False, False)))
+        kind = _KINDS[occ]
+        left, right = orc.properties[a], orc.properties[b]
+        if kind == 'replication':
+            kind, left, right = 'implication', right, left
+        want_bin.append((kind, left, right))
+    want_un = [('tautology' if all(c) else 'contradiction' if not any(c) else 'contingency', orc.properties[j])
+               for j, c in enumerate(cols)]
+    for include_unary in (False, True):
+        rel = ctx.relations(include_unary=include_unary)
+        got = [(r.kind, r.left, r.right) if r.__class__.binary else (r.kind, r.left) for r in rel]
+        raw = (want_un if include_unary else []) + want_bin
+        want = [x for _, x in sorted(enumerate(raw), key=lambda t: (_RANK[t[1][0]], t[0]))]
+        if got != want:
+            fails.append(f'relations(include_unary={include_unary}) = {got!r}, expected {want!r}')
+        for label, f in (('str', lambda: str(rel)), ('tostring', lambda: rel.tostring())):
+            try:
+                if not isinstance(f(), str):
+                    fails.append(f'{label}() does not return a string')
+            except Exception as e:
+                fails.append(f'{label}(relations(include_unary={include_unary})) with {len(rel)} entries raised '
+                             f'{type(e).__name__}: {e}')
+    return fails
+
+
+# -- C19 ---------------------------------------------------------------------------------------------------
+
+def ctor_valid(objects, properties, rows):
+    return bool(objects) and bool(properties) and len(set(objects)) == len(objects) \
+        and len(set(properties)) == len(properties) and not set(objects) & set(properties) \
+        and len(rows) == len(objects) and all(len(r) == len(properties) for r in rows)
+
+
+def b19_ctor(concepts, objects, properties, rows):
+    fails = []
+    valid = ctor_valid(objects, properties, rows)
+    try:
+        c = concepts.Context(objects, properties, [tuple(r) for r in rows])
+    except ValueError:
+        if valid:
+            fails.append(f'valid input rejected: {objects!r} {properties!r} {rows!r}')
+        return fails
+    except Exception as e:
+        return [f'raised {type(e).__name__} instead of ValueError for {objects!r} {properties!r} {rows!r}: {e}']
+    if not valid:
+        return [f'invalid input accepted: {objects!r} {properties!r} {rows!r}']
+    if tuple(c.objects) != tuple(objects) or tuple(c.properties) != tuple(properties) \
+            or [tuple(bool(x) for x in r) for r in c.bools] != [tuple(bool(x) for x in r) for r in rows]:
+        fails.append(f'accepted input not reproduced: {c.objects!r} {c.properties!r} {c.bools!r}')
+    return fails
+
+
+def fromdict_valid(d, flags):
+    for k in ('objects', 'properties', 'context'):
+        if k not in d:
+            return False
+    o, p, ctx = d['objects'], d['properties'], d['context']
+    if not all(isinstance(x, str) for x in list(o) + list(p)):
+        return False
+    if len(ctx) != len(o):
+        return False
+    if flags.get('require_lattice') and 'lattice' not in d:
+        return False
+    if d.get('lattice') is not None and not d['lattice']:
+        return False
+    for r in ctx:
+        if not all(isinstance(i, int) and not isinstance(i, bool) for i in r):
+            return False
+        if len(set(r)) != len(r) or any(i < 0 or i >= len(p) for i in r):
+            return False
+    return ctor_valid(o, p, [[None] * len(p) for _ in ctx])
+
+
+def b19_fromdict(concepts, d, flags):
+    valid = fromdict_valid(d, flags)
+    try:
+        c = concepts.Context.fromdict(d, **flags)
+    except ValueError:
+        return [f'valid serialized dict rejected: {d!r} {flags!r}'] if valid else []
+    except Exception as e:
+        return [f'raised {type(e).__name__} instead of ValueError for {d!r} {flags!r}: {e}']
+    if not valid:
+        return [f'invalid serialized dict accepted: {d!r} {flags!r}']
+    want = [tuple(j in r for j in range(len(d['properties']))) for r in d['context']]
+    if tuple(c.objects) != tuple(d['objects']) or tuple(c.properties) != tuple(d['properties']) \
+            or [tuple(bool(x) for x in r) for r in c.bools] != want:
+        return [f'accepted dict not reproduced: {c.objects!r} {c.properties!r} {c.bools!r}']
+    return []
+
+
 def make(concepts, case):
     """(context, oracle) for a replay case with objects/properties/table"""
     ctx = concepts.Context(case['objects'], case['properties'], [tuple(r) for r in case['table']])
